@@ -6,6 +6,7 @@ package main
 // (nil / io.EOF / other) of every Read call, panics.
 
 import (
+	"bufio"
 	"bytes"
 	"encoding/csv"
 	"encoding/json"
@@ -29,7 +30,14 @@ type c19query struct {
 	Sizes []int `json:"sizes"`
 }
 
+type c19long struct {
+	Pre  []int `json:"pre"`
+	N    int   `json:"n"`
+	Post []int `json:"post"`
+}
+
 type c19case struct {
+	Long    *c19long   `json:"long"`
 	File    []int      `json:"file"`
 	Tsv     []int      `json:"tsv"`
 	TsvOnly bool       `json:"tsv_only"`
@@ -77,6 +85,8 @@ func c19newIndexErr(err error) int {
 		return 3
 	case strings.HasPrefix(m, "fai: unexpected long line"):
 		return 4
+	case errors.Is(err, bufio.ErrTooLong):
+		return 5
 	}
 	return 9
 }
@@ -198,6 +208,10 @@ func c19(raw json.RawMessage) interface{} {
 		return map[string]interface{}{"rt": c19idxObs(idx, c19readFromErr(err), err)}
 	}
 	file := bytesOf(c.File)
+	if c.Long != nil {
+		// one long line of N bases 'A' between Pre and Post
+		file = append(append(bytesOf(c.Long.Pre), bytes.Repeat([]byte{'A'}, c.Long.N)...), bytesOf(c.Long.Post)...)
+	}
 	idx, err := fai.NewIndex(bytes.NewReader(file))
 	out := map[string]interface{}{"idx": c19idxObs(idx, c19newIndexErr(err), err)}
 	if err != nil {
